@@ -998,7 +998,39 @@ func TestC06(t *testing.T) {
 		Assumptions:     []string{"encoding/json", "RFC 7946 structure validator in props/c06_test.go", "documents whose meaning RFC 7946 leaves open (null coordinates, GeometryCollection without geometries) may either be rejected or decode to the empty geometry"},
 		Gen:             c06Gen,
 		Check:           c06Check,
+		Enumerate:       c06Enumerate,
 	})
+}
+
+// c06Enumerate: wide geometries (127..257 and 1000 members / rings / points), as geometries and as the features of
+// a FeatureCollection.
+func c06Enumerate(cx *h.Ctx, yield func(C06Case)) []string {
+	sq := func(x0, y0, x1, y1 int) []gm.F {
+		return gm.Fs(float64(x0), float64(y0), float64(x1), float64(y0), float64(x1), float64(y1), float64(x0), float64(y1), float64(x0), float64(y0))
+	}
+	for _, k := range []int{127, 128, 129, 255, 256, 257, 1000} {
+		var line []gm.F
+		mpt, mls, mpg, gc := gm.G{T: gm.MultiPoint}, gm.G{T: gm.MultiLineString}, gm.G{T: gm.MultiPolygon}, gm.G{T: gm.GeometryCollection}
+		poly := gm.G{T: gm.Polygon, Rings: [][]gm.F{sq(0, 0, 4*k, 4)}}
+		for i := 0; i < k; i++ {
+			x := float64(4 * i)
+			line = append(line, gm.F(x), gm.F(float64(i%3)))
+			mpt.Mem = append(mpt.Mem, gm.G{T: gm.Point, Co: gm.Fs(x, float64(i%5))})
+			mls.Mem = append(mls.Mem, gm.G{T: gm.LineString, Co: gm.Fs(x, 0, x+2, 3)})
+			mpg.Mem = append(mpg.Mem, gm.G{T: gm.Polygon, Rings: [][]gm.F{sq(4*i, 0, 4*i+2, 2)}})
+			gc.Mem = append(gc.Mem, []gm.G{{T: gm.Point, Co: gm.Fs(x, 1)}, {T: gm.LineString, Co: gm.Fs(x, 2, x+1, 3)}, {T: gm.MultiPoint}}[i%3])
+			if i > 0 {
+				poly.Rings = append(poly.Rings, gm.Fs(x+1, 1, x+2, 1, x+1, 2, x+1, 1))
+			}
+		}
+		for _, g := range []gm.G{{T: gm.LineString, Co: line}, mpt, mls, mpg, gc, poly} {
+			yield(C06Case{Kind: "geom", G: g})
+		}
+		if k <= 257 {
+			yield(C06Case{Kind: "feature", G: mpt, ID: `"wide"`, Props: `{"n":1}`, More: mls.Mem})
+		}
+	}
+	return []string{"lines, Multi*, collections and polygons of 127..257 and 1000 points / members / rings as geometries; FeatureCollections of 128..258 features"}
 }
 
 func c06HasNestedNull(d C06Doc) bool {
